@@ -2,9 +2,9 @@
    Lattice/*.v.  Model: Lattice/LatModel.v (`denote : lty -> LatImpl`, one Gallina mirror per impl of
    ascent_base/src/lattice.rs and lattice/*.rs).
 
-   Reading guide:  `wf_lty t = true` = the Rust type exists (trait bounds: `Ord` components for tuples and
-   OrdLattice, non-empty integer range, BOUND >= 0);  `wf L a` = a is a value of the type (integers in range,
-   sets canonical, BoundedSet within its bound, arrays of length N);  `le L a b` = Rust's `a <= b`
+   Reading guide:  `wf_lty t = true` = the Rust type exists (trait bounds: `Ord` components for tuples,
+   OrdLattice, Set and BoundedSet elements, non-empty integer range, BOUND >= 0);  `wf L a` = a is a value of the type (integers in range,
+   sets canonical = strictly increasing in the element type's Ord, BoundedSet within its bound, arrays of length N);  `le L a b` = Rust's `a <= b`
    (partial_cmp is Some(Less | Equal));  jv / mv = by-value join / meet;  jm / mm = join_mut / meet_mut as
    (receiver afterwards, returned flag);  bnd = (bottom, top) where BoundedLattice is implemented;
    ocmp = Ord::cmp where Ord is implemented.  Every theorem holds for EVERY well-formed type, i.e. every
@@ -143,9 +143,10 @@ Example c16_example :
   pcmp (denote t) a b = Some Lt /\ pcmp (denote t) a c = None /\
   jm (denote t) a c = (Some (1, false), true) /\ mm (denote t) a c = (Some (3, true), true) /\
   bnd (denote t) = Some (Some (2147483647, true), None) /\
-  wf_lty (LTuple (LCons i32 (LOne LSet))) = false /\
-  jm (denote (LBSet 2)) (Some [0; 1]) (Some [2]) = (None, true) /\
-  jm (denote LSet) [2] [0; 1] = ([0; 1; 2], true) /\ mm (denote LSet) [0; 1] [1; 2] = ([1], true).
+  wf_lty (LTuple (LCons i32 (LOne (LSet i32)))) = false /\ wf_lty (LSet (LSet i32)) = false /\
+  jm (denote (LBSet 2 i32)) (Some [0; 1]) (Some [2]) = (None, true) /\
+  jm (denote (LSet i32)) [2] [0; 1] = ([0; 1; 2], true) /\ mm (denote (LSet i32)) [0; 1] [1; 2] = ([1], true) /\
+  jm (denote (LSet (LReverse i32))) [2] [1; 0] = ([2; 1; 0], true).
 Proof. vm_compute. repeat split. Qed.
 
 Print Assumptions c16_laws. Print Assumptions c16_closed. Print Assumptions c16_commutative. Print Assumptions c16_associative.
